@@ -318,6 +318,11 @@ pub fn cli_cases(n: usize) -> Vec<Case> {
     all.push(Case::Cli { pre: sv(&["--replications", "48", "--steps", "150", "--max-step-size", "0.02", "-p", "LJ"]), pos: sv(&["p1", "circle"]) });
     all.push(Case::Cli { pre: sv(&["--replications", "40", "--steps", "400", "--max-step-size", "0.02", "-p", "LJ"]), pos: sv(&["p2", "circle"]) });
     all.push(Case::Cli { pre: sv(&["--replications", "32", "--steps", "600", "--max-step-size", "0.05"]), pos: sv(&["p1", "polygon", "--sides", "4"]) });
+    // replicas that finish on bit-identical scores in different states (moves below the
+    // resolution of the cell, or so large that every move is clipped to a bound)
+    all.push(Case::Cli { pre: sv(&["--replications", "16", "--steps", "200", "--max-step-size", "1e-18"]), pos: sv(&["p1", "circle"]) });
+    all.push(Case::Cli { pre: sv(&["--replications", "24", "--steps", "200", "--max-step-size", "1e6"]), pos: sv(&["p2", "polygon", "--sides", "4"]) });
+    all.push(Case::Cli { pre: sv(&["--replications", "20", "--steps", "150", "--max-step-size", "1e300", "-p", "LJ"]), pos: sv(&["p1", "circle"]) });
     all.into_iter().take(n).collect()
 }
 
@@ -351,7 +356,7 @@ pub fn run(ctx: &Ctx) {
         ctx.merge(st);
     }
     if let Some(exe) = ctx.args.cli.clone() {
-        let cases = cli_cases(ctx.tier.pick(18, 18));
+        let cases = cli_cases(ctx.tier.pick(21usize, 21usize));
         let repeats = ctx.tier.pick(1u64, 6u64);
         let seed = ctx.seed;
         let results: Vec<(Stats, BTreeSet<String>)> = cases
